@@ -16,7 +16,7 @@ def _obj_val_post():
     cl = [f"implies({sub(present)}, some_member(result, lambda m: type_is(m, {C}) and dict_wf(m.params) and {sub(params)}))" for C, present, params in gv]
     cl += [f"all_members(result, lambda m: implies(type_is(m, {C}), ({sub(present)}) and dict_wf(m.params) and {sub(params)}))" for C, present, params in gv]
     cl += ["all_members(result, lambda m: type_is(m, InstanceOf) or type_is(m, AdditionalProperties) or " + " or ".join(f"type_is(m, {C})" for C, _, _ in gv) + ")"]
-    tp = "dict_wf(m.params) and has(m.params,'types') and is_tuple(m.params['types']) and len(m.params['types']) == 2 and m.params['types'][0] is dict and m.params['types'][1] is cls"
+    tp = "dict_wf(m.params) and has(m.params,'types') and m.params['types'] is (dict, cls)"
     cl += [f"some_member(result, lambda m: type_is(m, InstanceOf) and {tp})", f"all_members(result, lambda m: implies(type_is(m, InstanceOf), {tp}))"]
     ap = "dict_wf(m.params) and has(m.params,'__properties__') and isinstance(m.params['__properties__'], Properties)"
     cl += [f"some_member(result, lambda m: type_is(m, AdditionalProperties) and {ap})", f"all_members(result, lambda m: implies(type_is(m, AdditionalProperties), {ap}))"]
@@ -29,8 +29,7 @@ contract(M + "ObjectMeta.validators",
 
 # the metaclass properties, verified for a symbolic model class
 contract(M + "ObjectMeta.type_validator", requires="is_cls(cls)",
-         returns="type_is(result, InstanceOf) and dict_wf(result.params) and has(result.params,'types') and is_tuple(result.params['types']) and "
-                 "len(result.params['types']) == 2 and result.params['types'][0] is dict and result.params['types'][1] is cls",
+         returns="type_is(result, InstanceOf) and dict_wf(result.params) and has(result.params,'types') and result.params['types'] is (dict, cls)",
          kinds={"cls": "cls"}, ghost={"result_fresh": True}, props=["C01", "C04"])
 
 # Element.__properties__ read from a model *class* (ObjectMeta is a subclass of Element, so the property applies to classes)
